@@ -97,6 +97,9 @@ Theorem C02_case_insensitive : forall (t : mtable) (ms ms' : list str) (e : ment
 Proof. exact case_insensitive_lemma. Qed.
 Print Assumptions C02_case_insensitive.
 
+(* [mop] also contains the Route API called directly (route.add_method /
+   route.set_method on the object found by router[{rule}]: MAddRaw / MSetRaw, no
+   upper-casing) — audit round 4; C02_reachable_tables_are_histories covers it. *)
 (* after ANY sequence of add / overwrite / rejected add / remove_method the
    table is the finite map [srun ops] (plain reading of the three operations:
    an add that meets a registered name changes nothing) and has no duplicate
